@@ -187,7 +187,7 @@ CHECKS = {
         "fit; the i-th string becomes the i-th carrier in ascending element order; walking a carrier of whole entries "
         "returns exactly those entries (zero-length and header-like values included) (Props/C12.lean). Tied to /repo by "
         "every pair of value lengths at the 999 boundary (quick 998..1000, thorough 985..1005), 1..6 chunks, unsorted "
-        "insertion order, generated carrier sets; carriers read back with a PDS-less configuration. In addition a SOURCE TIE: harness/pytrans.py translates the current Python text of iso8583._pds_to_de, _pds_to_dict into Lean (Gen/Src.lean) on every run and lean/Cardutil/SrcTie/Pds.lean proves, for all inputs, that the translation equals the model (and restates the property for the translated code); when the source changes so that this no longer checks, the check runs its thorough generators before answering (the correspondence remains the deciding tie).",
+        "insertion order, generated carrier sets; carriers read back with a PDS-less configuration. In addition a SOURCE TIE: harness/pytrans.py translates the current Python text of iso8583._pds_to_de, _pds_to_dict into Lean (Gen/Src.lean) on every run and lean/Cardutil/SrcTie/Pds.lean proves, for all inputs, that the translation equals the model (and restates the property for the translated code); the PDS-carrier statements of _dict_to_iso8583 (the configured PDS elements sorted in descending order, one popped from the end for every packed string) are translated on a text-valued message and lean/Cardutil/SrcTie/Carriers.lean proves C12_source_carriers (string i goes to 'DE' + the i-th smallest configured PDS element, nothing else is touched; one string too many is an IndexError) and C12_source_no_pds_untouched; when the source changes so that this no longer checks, the check runs its thorough generators before answering (the correspondence remains the deciding tie).",
         "Trusted: as C01. The key order is proved too (C12_ascending_order: the packed list is sorted by key text and is a "
         "permutation of the message's PDS entries; for 4-digit tags text order = numeric order).",
         "DESIGN.md §8 C12"),
